@@ -46,7 +46,13 @@ def run_theme(ctx, theme, containers, scripting, n, listed, tag):
         ctx.violation("theorem %s fails on the tree-construction specification [%s]" % (r.violated, tag), {"tlc": r.stdout_path})
         return 0
     bad = 0
+    sampled = False
     for batch in core.batched(tlc.iter_records(r.stdout_path), 50000):
+        if not sampled and batch:
+            m = batch[(len(batch) * 2) // 3]
+            ctx.sample({"spec_to_code": core.ucs(m["src"]), "container": None if m["cx"] == NONE else core.ucs(m["cx"]),
+                        "expected_tree": treeproj.show(m["tree"])[:500], "expected_snapshot_mode": m["snap"]["mode"]}, limit=3)
+            sampled = True
         for rec in batch:
             if not rec.get("skel", True) and ctx.pid == "C03":
                 ctx.known_finding("skel-noframes-after-frameset", "noframes after frameset becomes a third element child of html",
@@ -98,12 +104,13 @@ def trace_inputs(ctx, n):
 
 
 import re
-_BOUNDARY = re.compile(r"[&\x00]|<(?![A-Za-z/!?])|</(?![A-Za-z>])")
+_BOUNDARY = re.compile(r"&[A-Za-z0-9]")
 
 
 def unmodelled(d, cx):
-    """inputs whose result depends on html5lib's Characters-token boundaries in the frameset / colgroup-fragment modes,
-    which the specification reproduces only for text without '&', NUL and stray '<' (stated bound, DESIGN.md 5/C01)"""
+    """inputs whose result depends on how far html5lib's named-character-reference look-ahead reaches inside a
+    Characters token in the frameset / colgroup-fragment modes: the specification reproduces html5lib's token boundaries
+    (Tokenizer.EmitCharsB) except for the text consumed by an unterminated named reference (stated bound, DESIGN.md 12)"""
     return (cx in ("colgroup", "frameset") or "frameset" in d.lower()) and _BOUNDARY.search(d) is not None
 
 
@@ -251,10 +258,14 @@ def run(ctx):
                 "the composed specification, structural theorems checked, result replayed into the real parser with the etree and dom "
                 "builders; traces: real result trees on repo test strings / soup / optional-tag and whitespace generators in document "
                 "mode and all 26 fragment contexts, re-derived by TLC. non-trivial = distinct (input, container)")
+    # the INTENDED design (no deviation enabled) must satisfy the structural theorems as well
+    for theme in ("formatting", "table", "head", "blocks", "select", "foreign", "frameset"):
+        r0 = ctx.tlc("MC_Tree", cfg(theme, "common" if theme in ("table", "select") else "doc", False, 2, False, []), "mc-intended-" + theme)
+        if r0.violated:
+            ctx.violation("theorem %s fails on the INTENDED tree-construction specification [%s]" % (r0.violated, theme), {"tlc": r0.stdout_path})
     for theme, cont, scr, n in plan:
         run_theme(ctx, theme, cont, scr, n, spec_listed, "mc-%s-%s-%d-%d" % (theme, cont, int(scr), n))
     ctx.exhaustive = True
-    ctx.sample({"spec_to_code": "<b><p>x</b>y", "expected": "see replay files; trees compared node by node"})
     # transition cover (spec-derived tests, judged by TLC with snapshots)
     cjobs = cover_tests(ctx, spec_listed)
     ctx.notes["cover_tests"] = len(cjobs)
